@@ -188,7 +188,7 @@ def replay_lifecycle_case(case):
                                                                        observed=sorted(during))))
             if o["fds"] != ["unspecified"]:
                 now = lib_fds(tmp, exclude) | tracker.open_roles()
-                if now != set(o["fds"]):
+                if (not now <= set(o["fds"])) if o.get("atmost") else (now != set(o["fds"])):
                     fails.append((sig("descriptors", op, leaked=sorted(now - set(o["fds"]))),
                                   dict(step, cfg=cfg, expected=o["fds"], observed=sorted(now), variant=variant)))
                     break
